@@ -5,6 +5,7 @@ import PhyVerif.Driver.C07
 import PhyVerif.Driver.C01
 import PhyVerif.Driver.C19
 import PhyVerif.Driver.C20
+import PhyVerif.Driver.C17
 open Lean PhyVerif.Driver
 
 def dispatch (j : Json) : R Json := do
@@ -17,6 +18,7 @@ def dispatch (j : Json) : R Json := do
   | "C01" => runC01 op j
   | "C19" => runC19 op j
   | "C20" => runC20 op j
+  | "C17" => runC17 op j
   | _ => .error s!"unknown property {p}"
 
 def handle (line : String) : String :=
